@@ -2,6 +2,7 @@ package zzverif
 
 import (
 	"context"
+	"encoding/hex"
 	"encoding/json"
 	"fmt"
 	"net/http"
@@ -197,6 +198,10 @@ func oplBytes(v string) []byte {
 	// a whole document handed in by the runner (programs of OplTypes.tla / OplGrammar.tla)
 	if strings.HasPrefix(v, "prog:") {
 		return []byte(v[5:])
+	}
+	if strings.HasPrefix(v, "progx:") { // hex: documents that are not valid UTF-8
+		b, _ := hex.DecodeString(v[6:])
+		return b
 	}
 	switch v {
 	case "valid_opl":
